@@ -9,6 +9,8 @@ CONSTANTS
   Cap = 2
   Buffered = FALSE
   Gaps = "overlap"
+  KeepData = TRUE
+  ExternalProg <- NoExternal
   Emit = FALSE
 INVARIANTS TypeOK Isolation Transparency Available ReplyOK ActiveOK StatusOK
 PROPERTIES GoodServed AllEnd
